@@ -100,11 +100,15 @@ void save_set_options_for_QT(size_t level)
    // save the values
    QT_SIGNAL_SLOT_level = level;
 
-   for (auto &opt : for_qt_options)
+   // an override that is still active (a SIGNAL/SLOT word without its parentheses) holds
+   // the user's values: saving again would replace them with the overriding ones
+   if (!QT_SIGNAL_SLOT_found)
    {
-      opt.save_and_override();
+      for (auto &opt : for_qt_options)
+      {
+         opt.save_and_override();
+      }
    }
-
    QT_SIGNAL_SLOT_found = true;
 }
 
